@@ -139,6 +139,7 @@ type fnInfo struct {
 	calls     int
 	name      string
 	idx       map[ssa.Value]int
+	skip      map[ssa.Instruction]*fillInfo
 }
 
 func (in *fnInfo) buildIndex(fn *ssa.Function) {
